@@ -3300,10 +3300,10 @@ class HCI_Receive_Synchronization_Train_Command(HCI_AsyncCommand):
 
 
 # -----------------------------------------------------------------------------
-@HCI_SyncCommand.sync_command(HCI_StatusReturnParameters)
+@HCI_SyncCommand.sync_command(HCI_StatusAndAddressReturnParameters)
 @dataclasses.dataclass
 class HCI_Remote_OOB_Extended_Data_Request_Reply_Command(
-    HCI_SyncCommand[HCI_StatusReturnParameters]
+    HCI_SyncCommand[HCI_StatusAndAddressReturnParameters]
 ):
     '''
     See Bluetooth spec @ 7.1.53 Remote OOB Extended Data Request Reply Command
